@@ -81,7 +81,7 @@ def check_aba(spec):
     if sorted(s2.elements) != sorted(S.elements):
         return "A->B->A changed the elements: %r vs %r" % (sorted(s2.elements), sorted(S.elements))
     for e, p in zip(S.elements, S.positions):
-        if not any(e == e2 and repl.lattice_equal(cell, p, p2, 1e-4 + 2.5 * spec.get('noise', 0.0)) for e2, p2 in zip(s2.elements, s2.positions)):
+        if not any(e == e2 and repl.lattice_equal(cell, p, p2, 1e-4 if not spec.get('noise') else 2 * atol) for e2, p2 in zip(s2.elements, s2.positions)):
             return "A->B->A lost atom %s at %r" % (e, list(np.round(p, 4)))
     return None
 
